@@ -775,3 +775,69 @@ def check_c10(ctx):
                        "completeness of the recorded trace: every write/sync/creation/rename of the engine goes through the instrumented sites (storage layer, io_uring batch path, paths.rs, index.rs)",
                        "the background fsync thread and the marker file are not part of the checked discipline"]
     finish(ctx, trusted_base=TRUSTED + ["hook H1 event recording and the trace abstraction in bin/props_engine.py (abstract_trace)"])
+
+
+def check_c05(ctx):
+    """C05: theorem relative to atomic calls + real-thread stress harness restricted to the calls that are atomic."""
+    mods = ["WalrusVerif.Props.C05"]
+    translator(ctx)
+    banned_scan(ctx)
+    lean_build(ctx, mods)
+    if ctx.tier == "thorough" and not ctx.tie_broken:
+        leanchecker(ctx, mods)
+    known_open, _ = load_known_findings()
+    known = {k["quirk"]: k for k in known_open if k.get("property") == "C05" and "quirk" in k}
+    binp, err = cargo_build(ctx, "engine_harness", small=True)
+    n = 600 if ctx.tier == "thorough" else 70
+    rows, vio, kf = [], [], 0
+    if binp is None:
+        ctx.tie_broken.append(err)
+    else:
+        out = os.path.join(ctx.scratch, "conc")
+        env = dict(ENV)
+        env["VERIF_NPROG"] = str(n)
+        rc, o, dt = run([binp, "conc", out], env=env, timeout=3000)
+        log("harness conc: rc=%d (%.1fs)" % (rc, dt))
+        if rc != 0:
+            ctx.tie_broken.append("concurrency harness failed: %s" % o[-300:])
+        else:
+            for l in open(os.path.join(out, "conc.tsv")).read().split("\n"):
+                f = l.split("\t")
+                if len(f) < 6:
+                    continue
+                rows.append(f)
+                broken = f[4] != "ok" or "VIOLATION" in f[5]
+                if f[1] == "readnext":
+                    if broken:
+                        kf += 1
+                elif broken:
+                    vio.append(f)
+    if kf and "tailReadersShareSnapshot" in known:
+        ctx.known.append("KNOWN-FINDING: property=C05 quirk=tailReadersShareSnapshot %s [observed in %d scenario run(s) of this run]" % (known["tailReadersShareSnapshot"].get("what", ""), kf))
+    elif kf:
+        vio.extend([r for r in rows if r[1] == "readnext" and (r[4] != "ok" or "VIOLATION" in r[5])])
+    if vio:
+        body = ["# property C05 violated by the implementation: real threads, calls that hold their locks from start to commit",
+                "# columns: scenario number, scenario, consistency mode, backend, how the process ended, result and violations",
+                "# re-run one: harness/target-small/release/engine_harness concrun <scenario> <seed*1000+number> <datadir> <outfile> <mode> <backend>  (seed %d)" % ctx.seed]
+        body += ["\t".join(v) for v in vio[:20]]
+        path = write_replay(ctx, "conc", "\n".join(body) + "\n")
+        ctx.violations.append((path, ""))
+    hist = collections.Counter(r[1] for r in rows)
+    ctx.cov.update({
+        "evaluations": len(rows), "distinct_nontrivial": len([r for r in rows if r[1] != "readnext"]),
+        "rule": "each case = one scenario in its own process with 2-4 real threads on the real engine (small geometry, StrictlyAtOnce or AtLeastOnce{1..8}, fd or mmap): "
+                "`producers` - concurrent single and batch appends to one shared topic (a concurrent batch is rejected with WouldBlock and retried), then one consumer drains; "
+                "`first` - 40 fresh topics, the first appends of 2-4 threads released together by a spin barrier; `consumers` - 200-500 preloaded entries (sealed blocks + tail), "
+                "2-4 concurrent consuming batch readers with random budgets; oracle: every acknowledged entry delivered exactly once, per-producer order, batch contiguity, "
+                "per-consumer order. `readnext` (1 in 10) exercises the window of the open finding tailReadersShareSnapshot. non-trivial = every non-readnext scenario; "
+                "distinct by seed",
+        "scenarios": dict(hist), "violations_outside_known_windows": len(vio), "known_window_observed": kf,
+        "samples": [{"scenario": r[1], "mode": r[2], "backend": r[3], "result": r[5][:200]} for r in rows[:4]] or ["(none)"],
+        "programs": len(rows), "disagreements_checked": len(rows),
+        "search": {"scenarios": len(rows), "violations": len(vio)},
+    })
+    ctx.assumptions = ["atomicity of append / batch_append / cursor batch read is read off the code (locks held from start to commit), not proved",
+                       "real scheduling and memory ordering are exercised by the stress runs, not enumerated; no scheduling hooks (H4) exist",
+                       "readers overlapping a block rotation of a concurrent writer, and concurrent read_next, are outside the stress scenarios (open windows)"]
+    finish(ctx, trusted_base=TRUSTED)
